@@ -168,4 +168,28 @@ Definition tie_op (op : zop) (o : list Z) : bool :=
   end.
 Definition tie_ok (c : case) : bool := all2 tie_op (c_ops c) (c_obs c).
 
-Definition oracles : list (Z * (case -> bool)) := [(0, prop_ok); (1, tie_ok)].
+(* ---- Monte Carlo SEARCH oracle (a statistical test, used only to look for a failing configuration after a proof or the
+        tie broke; never counted as an obligation): mean relative error within 4 standard errors (+ 0.2 % for the known small
+        biases of the fitted estimators) of 0, and the s-sigma interval covering the truth at no less than the nominal rate
+        minus 4 binomial standard errors ---- *)
+Definition mc_op (op : zop) (o : list Z) : bool :=
+  let '(code, a) := op in
+  if negb (code =? 8) then true else
+  match o with
+  | [t; sum; sumsq; c1; c2; c3] =>
+      if t <? 100 then true else
+      let tf := u2f (zN t) in
+      let mean := PrimFloat.div (F sum) tf in
+      let var := PrimFloat.sub (PrimFloat.div (F sumsq) tf) (PrimFloat.mul mean mean) in
+      let se := PrimFloat.sqrt (PrimFloat.div (if PrimFloat.ltb var 0 then 0%float else var) tf) in
+      let slack := PrimFloat.add (PrimFloat.mul 4 se) 0x1.0624dd2f1a9fcp-9%float in
+      let cov_ok (c : Z) (nominal : float) :=
+        let sd := PrimFloat.sqrt (PrimFloat.div (PrimFloat.mul nominal (PrimFloat.sub 1 nominal)) tf) in
+        PrimFloat.leb (PrimFloat.sub nominal (PrimFloat.mul 4 sd)) (PrimFloat.div (u2f (zN c)) tf) in
+      PrimFloat.leb (PrimFloat.abs mean) slack &&
+      cov_ok c1 0x1.5d8c7e28240b8p-1%float && cov_ok c2 0x1.e8b4395810625p-1%float && cov_ok c3 0x1.fe9e1b089a027p-1%float
+  | _ => false
+  end.
+Definition mc_ok (c : case) : bool := all2 mc_op (c_ops c) (c_obs c).
+
+Definition oracles : list (Z * (case -> bool)) := [(0, prop_ok); (1, tie_ok); (2, mc_ok)].
